@@ -13,7 +13,11 @@ def main():
             out["import_ok"] = False
             out["errors"].append(f"{top}: {type(e).__name__}: {str(e)[:300]} || {traceback.format_exc().strip().splitlines()[-3:]}")
             continue
-        for m in pkgutil.walk_packages(pkg.__path__, pkg.__name__ + "."):
+        def onerr(name):
+            e = sys.exc_info()[1]
+            out["import_ok"] = False
+            out["errors"].append(f"{name}: {type(e).__name__}: {str(e)[:300]}")
+        for m in pkgutil.walk_packages(pkg.__path__, pkg.__name__ + ".", onerror=onerr):
             try:
                 importlib.import_module(m.name)
                 out["modules"].append(m.name)
